@@ -1611,6 +1611,11 @@ def preprocess_arg(arg: ColExpr, table: Table, *, agg_is_window: bool = True) ->
         if isinstance(expr, ColName):
             return table[expr.name]
 
+        if isinstance(expr, Col) and not eval_aligned:
+            # The table knows the current type of the column; a reference held from
+            # before a `union` may still carry the type of the left operand's column.
+            return table._cache.cols[expr._uuid]
+
         new = copy.copy(expr)
         if (
             agg_is_window
